@@ -46,7 +46,7 @@ def r4_dtype_gate(run, tree):
 def r5_out(run, tree):
     run.rule("C10.R5", "out=: unit written to the out object, that object returned", "D7 fold of _wrap_numpy with out=", "",
              floor=2)
-    af.check_wrap_numpy_fold(run, tree, want=("out",))
+    af.check_wrap_numpy_fold(run, tree, want=("out", "out-alias"))
 
 
 def r6_helpers(run, tree):
